@@ -138,6 +138,9 @@ class Tr:
             if not t.startswith('opt:'):
                 inner, _ = self.coerce(txt, t, want[4:], node)
                 return '(Some %s)' % inner, want
+        if t == 'opt:' + want and want in ('Z',) and txt.startswith('l_') and txt[2:].isidentifier() and getattr(self, 'unwraps', None) is not None:
+            self.unwraps.add(txt[2:])         # the enclosing simple statement is wrapped in a match (None -> TypeError)
+            return 'u_' + txt[2:], want
         if want.startswith('tup:') and t.startswith('tup:'):
             ws, ts = split_tup(want), split_tup(t)
             if len(ws) == len(ts) and txt.startswith('(TUP|'):
@@ -247,6 +250,8 @@ class Tr:
             return a, 'B'
         if ta.startswith('list:'):
             return '(negb (is_nil %s))' % a, 'B'
+        if ta == 'opt:B':
+            return '(match %s with Some true => true | _ => false end)' % a, 'B'     # None and False are both falsy
         fail(n, 'truthiness of type %s' % ta)
 
     def attribute(self, n):
@@ -278,6 +283,8 @@ class Tr:
             if txt in self.optbound:
                 return self.optbound[txt]
             return txt, t
+        if chain and chain[-1] == 'size' and isinstance(n.value, ast.Name) and self.env.get(n.value.id) in ('vec', 'zvec'):
+            return '(lenZ l_%s)' % n.value.id, 'Z'
         if isinstance(cur, ast.Name) and cur.id == 'np' and chain == ['inf']:
             return 'finf', 'T'
         if isinstance(cur, ast.Name) and cur.id == 'np' and chain == ['nan']:
@@ -295,6 +302,8 @@ class Tr:
             fail(n, 'power')
         if isinstance(n.op, ast.FloorDiv) and ta == tb == 'Z':
             return '(Z.div %s %s)' % (a, b), 'Z'
+        if isinstance(n.op, ast.Add) and ta == tb == 'zvec':
+            return '(%s ++ %s)' % (a, b), 'zvec'        # python list concatenation (index lists)
         op = {ast.Add: 'add', ast.Sub: 'sub', ast.Mult: 'mul', ast.Div: 'div'}.get(type(n.op)) or fail(n, 'binop')
         if ta == tb == 'Z':
             if op == 'div':
@@ -328,6 +337,8 @@ class Tr:
             return '(%s %s)' % ('is_none' if isinstance(op, ast.Is) else 'is_some', a)
         a, ta = self.e(l)
         b, tb = self.e(r)
+        if isinstance(op, (ast.In, ast.NotIn)) and ta == 'Z' and tb == 'zvec':
+            return ('(memZ %s %s)' if isinstance(op, ast.In) else '(negb (memZ %s %s))') % (a, b)
         if ta == tb == 'Z':
             f = {ast.Lt: 'Z.ltb %s %s', ast.LtE: 'Z.leb %s %s', ast.Gt: 'Z.ltb %s %s', ast.GtE: 'Z.leb %s %s',
                  ast.Eq: 'Z.eqb %s %s', ast.NotEq: 'negb (Z.eqb %s %s)'}.get(type(op)) or fail(n, 'int compare')
@@ -445,7 +456,8 @@ class Tr:
         for p in got:
             if p in fixed:
                 v = got[p]
-                if not (isinstance(v, ast.Constant) and v.value == fixed[p]):
+                if not ((isinstance(v, ast.Constant) and v.value == fixed[p]) or
+                        (isinstance(v, ast.Name) and v.id in self.fixed and self.fixed[v.id] == fixed[p])):
                     fail(n, 'argument %s must be the constant %r' % (p, fixed[p]))
             elif p not in dict(params):
                 fail(n, 'unknown argument %s' % p)
@@ -522,6 +534,10 @@ class Tr:
             a, ta = self.e(n.args[0])
             if ta in ('vec', 'mat', 'zvec') or ta.startswith('list:'):
                 return '(lenZ %s)' % a, 'Z'
+        if name == 'list' and len(n.args) == 1:
+            a, ta = self.e(n.args[0])
+            if ta == 'zvec':
+                return a, 'zvec'
         if name == 'float' and len(n.args) == 1:
             if isinstance(n.args[0], ast.Constant) and n.args[0].value == 'inf':
                 return 'finf', 'T'
@@ -631,6 +647,15 @@ class Tr:
             a, _ = self.e(args[2], want='vec')
             c, _ = self.e(args[1], want='T')
             return '(vmap (fun y_ => if isnan y_ then %s else y_) %s)' % (c, a), 'vec'
+        if name == 'all' and len(args) == 1 and isinstance(args[0], ast.Compare) and len(args[0].ops) == 1 and \
+                isinstance(args[0].ops[0], (ast.LtE, ast.Lt, ast.GtE, ast.Gt)):
+            # np.all(u <= v) on vectors of equal length
+            (a, ta), (b, tb) = self.e(args[0].left), self.e(args[0].comparators[0])
+            if ta == tb == 'vec':
+                if isinstance(args[0].ops[0], (ast.GtE, ast.Gt)):
+                    a, b = b, a
+                return '(vall2 %s %s %s)' % ('le' if isinstance(args[0].ops[0], (ast.LtE, ast.GtE)) else 'lt', a, b), 'B'
+            fail(n, 'np.all types')
         if name == 'isfinite' and len(args) == 1:
             a, _ = self.e(args[0], want='T')
             return '(isfin %s)' % a, 'B'
@@ -647,6 +672,16 @@ class Tr:
             a, ta = self.e(n.value.value)
             if ta in ('vec', 'mat', 'zvec'):
                 return '(lenZ %s)' % a, 'Z'
+        if isinstance(n.value, ast.Call) and ast.unparse(n.value.func) == 'np.where' and len(n.value.args) == 1 and \
+                isinstance(n.slice, ast.Constant) and n.slice.value == 0:
+            # np.where(np.abs(v) < c)[0] : the indices (ascending) of the entries that satisfy the test
+            c = n.value.args[0]
+            if isinstance(c, ast.Compare) and len(c.ops) == 1 and isinstance(c.ops[0], ast.Lt) and isinstance(c.left, ast.Call) and \
+                    ast.unparse(c.left.func) == 'np.abs' and len(c.left.args) == 1:
+                v, _ = self.e(c.left.args[0], want='vec')
+                b, _ = self.e(c.comparators[0], want='T')
+                return '(where_idx (fun y_ => lt (fabs y_) %s) %s)' % (b, v), 'zvec'
+            fail(n, 'np.where pattern')
         base, tb = self.e(n.value)
         sl = n.slice
         if tb in ('vec', 'zvec') and not isinstance(sl, (ast.Tuple, ast.Slice)):
@@ -660,6 +695,10 @@ class Tr:
         if tb in ('vec', 'zvec', 'mat') and isinstance(sl, ast.Slice) and sl.lower is None and sl.step is None and sl.upper is not None:
             u, _ = self.e(sl.upper, want='Z')
             return '(firstnZ %s %s)' % (u, base), tb
+        if tb == 'mat' and isinstance(sl, ast.Tuple) and len(sl.elts) == 2 and isinstance(sl.elts[0], ast.Slice) and \
+                sl.elts[0].lower is None and sl.elts[0].upper is None and sl.elts[0].step is None and not isinstance(sl.elts[1], ast.Slice):
+            j, _ = self.e(sl.elts[1], want='Z')           # M[:, j]: column j
+            return '(mcol %s (Z.to_nat %s))' % (base, j), 'vec'
         if tb == 'mat' and isinstance(sl, ast.Tuple) and len(sl.elts) == 2 and isinstance(sl.elts[1], ast.Slice) and \
                 sl.elts[1].lower is None and sl.elts[1].upper is None:
             r = sl.elts[0]
@@ -721,6 +760,9 @@ class Tr:
                     walk(s.body)
                 elif isinstance(s, ast.Expr) and isinstance(s.value, ast.Call) and self.is_proc_call(s.value):
                     add('st')
+                elif isinstance(s, ast.Expr) and isinstance(s.value, ast.Call) and isinstance(s.value.func, ast.Attribute) and \
+                        s.value.func.attr == 'append' and isinstance(s.value.func.value, ast.Name):
+                    add('l_' + s.value.func.value.id)         # L.append(i) rebinds the model's immutable list
         walk(stmts)
         head = [x for x in ('st', 'orc_', 'log_') if x in out]
         return head + sorted(x for x in out if x not in head)
@@ -790,13 +832,31 @@ class Tr:
         if isinstance(s, ast.Assign) and len(s.targets) == 1:
             if self.is_oracle_call(s.value):
                 return self.oracle_assign(s, nxt)
-            return self.assign(s.targets[0], s.value, s) + '\n' + nxt()
+            rc = self.res_call(s.value)
+            if rc is not None and isinstance(s.targets[0], ast.Name):
+                # x = f(...) for a translated top-level function that may fail: bind its result
+                txt, t = rc
+                self.env[s.targets[0].id] = t
+                return 'bind %s (fun l_%s =>\n%s)' % (txt, s.targets[0].id, nxt())
+            return self.simple(lambda: self.assign(s.targets[0], s.value, s), nxt)
         if isinstance(s, ast.AugAssign):
             op = type(s.op)()
             load = ast.parse(ast.unparse(s.target), mode='eval').body
-            return self.assign(s.target, ast.BinOp(left=load, op=op, right=s.value), s) + '\n' + nxt()
+            return self.simple(lambda: self.assign(s.target, ast.BinOp(left=load, op=op, right=s.value), s), nxt)
+        if isinstance(s, ast.Expr) and isinstance(s.value, ast.Call) and isinstance(s.value.func, ast.Attribute) and \
+                s.value.func.attr == 'append' and isinstance(s.value.func.value, ast.Name) and \
+                self.env.get(s.value.func.value.id) == 'zvec' and len(s.value.args) == 1 and not s.value.keywords:
+            nm = s.value.func.value.id           # python list of indices: L.append(i)
+
+            def app():
+                v, _ = self.e(s.value.args[0], want='Z')
+                return 'let l_%s := (l_%s ++ [%s]) in' % (nm, nm, v)
+            return self.simple(app, nxt)
         if isinstance(s, ast.Expr) and isinstance(s.value, ast.Call) and self.is_proc_call(s.value):
             return self.proc_call(s.value, None, s, nxt)
+        if isinstance(s, (ast.If, ast.For, ast.While)):
+            for nm in self.assigned([s]):
+                self.__dict__.setdefault('active_unwraps', set()).discard(nm[2:] if nm.startswith('l_') else nm)
         if isinstance(s, ast.If):
             return self.do_if(s, nxt)
         if isinstance(s, ast.For):
@@ -805,9 +865,45 @@ class Tr:
             return self.do_while(s, nxt)
         fail(s, 'statement kind')
 
+    def simple(self, emit, nxt):
+        """a simple statement; option-typed integer locals it uses as integers are unwrapped around it (None -> TypeError)"""
+        outer = getattr(self, 'unwraps', None)
+        self.unwraps = set()
+        try:
+            txt = emit()
+            names = sorted(self.unwraps)
+        finally:
+            self.unwraps = outer
+        active = self.__dict__.setdefault('active_unwraps', set())
+        new = [nm for nm in names if nm not in active]      # already unwrapped by an enclosing statement and not re-bound since
+        active.update(new)
+        body = txt + '\n' + nxt()
+        active.difference_update(new)
+        for nm in new:
+            body = 'match l_%s with None => Err OtherError | Some u_%s =>\n%s\nend' % (nm, nm, body)
+        return body
+
+    def res_call(self, v):
+        if isinstance(v, ast.Call) and isinstance(v.func, ast.Name):
+            for mod in [self.mod] + list(self.mod.others.values()):
+                spec = mod.funcs.get(v.func.id)
+                if spec and spec.get('toplevel') and not spec.get('pure') and not spec.get('pure_wrapper') and not spec.get('oracle'):
+                    args = self.call_args(v, spec)
+                    return '(%s%s)' % (mod.coqname(v.func.id), ''.join(' ' + a for a in args)), spec['ret']
+        return None
+
+    def ret_parts(self, v):
+        st = 'st' if self.uses_state else None
+        extra = ['orc_', 'log_'] if self.oracle else []
+        return ([st] if st else []) + extra + [v]
+
     def do_return(self, s):
         if self.loopdepth:
-            fail(s, 'return inside loop')
+            # return inside a loop: the value is carried out of the loop(s) in ret_ and returned after them
+            if self.spec.get('extra_ret') or s.value is None or 'ret_' not in self.loopcarried[-1]:
+                fail(s, 'return inside loop')
+            v, t = self.e(s.value, want=self.ret)
+            return 'let ret_ := Some %s in\n%s' % (self.finish(v), self.loop_exit(True))
         st = 'st' if self.uses_state else None
         extra = ['orc_', 'log_'] if self.oracle else []
         if s.value is None:
@@ -884,6 +980,9 @@ class Tr:
             o, to = self.e(t.left)
             if to.startswith('opt:'):
                 optcase = (o, to[4:], isinstance(t.ops[0], ast.IsNot))
+        if isinstance(t, ast.Name) and t.id in self.fixed and isinstance(self.fixed[t.id], bool):
+            # specialised parameter: only the live branch exists in the model (the schema records the specialisation)
+            return self.block(body if self.fixed[t.id] else orelse, nxt)
         if self.has(body, ast.Return) or self.has(orelse, ast.Return) or self.has_direct(body, (ast.Break, ast.Continue)) or \
                 self.has_direct(orelse, (ast.Break, ast.Continue)):
             # control leaves through a branch: continuation is duplicated into the branches that fall through
@@ -953,6 +1052,9 @@ class Tr:
         carried = self.assigned(s.body)
         ivar = 'l_' + s.target.id
         carried = [c for c in carried if c != ivar and not (c.startswith('l_') and c[2:] not in self.env)]
+        returns = self.has(s.body, ast.Return)
+        if returns:
+            carried = carried + ['ret_']
         saved = dict(self.env)
         self.env[s.target.id] = 'Z'
         self.loopdepth += 1
@@ -965,8 +1067,16 @@ class Tr:
         for nm in carried:
             if nm.startswith('l_') and env_b.get(nm[2:]) != self.env.get(nm[2:]):
                 fail(s, 'loop-carried local %s changes type' % nm[2:])
-        return 'bind (for_loop (rangeZ %s %s) (fun %s %s =>\n%s) %s) (fun %s =>\n%s)' % (
-            lo, hi, ivar, self.pat_of(carried), body, self.tuple_of(carried), self.pat_of(carried), nxt())
+        after = nxt()
+        pre = ''
+        if returns:
+            if self.loopdepth:
+                after = 'match ret_ with Some _ => %s | None =>\n%s\nend' % (self.loop_exit(True) if 'ret_' in self.loopcarried[-1] else fail(s, 'return inside nested loop'), after)
+            else:
+                pre = 'let ret_ := (None : option %s) in\n' % coqty(self.ret)
+                after = 'match ret_ with Some r_ => Ok %s | None =>\n%s\nend' % (self.tuple_of(self.ret_parts('r_')), after)
+        return pre + 'bind (for_loop (rangeZ %s %s) (fun %s %s =>\n%s) %s) (fun %s =>\n%s)' % (
+            lo, hi, ivar, self.pat_of(carried), body, self.tuple_of(carried), self.pat_of(carried), after)
 
     def do_while(self, s, nxt):
         if s.orelse:
@@ -1010,11 +1120,14 @@ class Tr:
             idx = tgt.slice.elts[0] if isinstance(tgt.slice, ast.Tuple) else tgt.slice
             if isinstance(idx, ast.List):
                 return self.assign_text(tgt, None, None, node)     # fancy-index swap: value checked syntactically
+        if isinstance(val, ast.List) and not val.elts and isinstance(tgt, ast.Name) and self.spec.get('locals', {}).get(tgt.id) == 'zvec':
+            return self.assign_text(tgt, '([] : list Z)', 'zvec', node)      # empty python list of indices
         v, t = self.e(val)
         return self.assign_text(tgt, self.finish(v), t, node)
 
     def assign_text(self, tgt, v, t, node):
         if isinstance(tgt, ast.Name):
+            self.__dict__.setdefault('active_unwraps', set()).discard(tgt.id)
             old = self.env.get(tgt.id)
             if old is not None and old != t:
                 if t == 'none' and old.startswith('opt:'):
@@ -1067,6 +1180,9 @@ class Tr:
             i, _ = self.e(sl.elts[0], want='Z')
             v, _ = self.coerce(v, t, 'vec', node)
             return '(updZ %s %s %s)' % (fld_txt, i, v)
+        if ft == 'vec' and isinstance(sl, ast.Name) and self.env.get(sl.id) == 'zvec':
+            v, _ = self.coerce(v, t, 'T', node)        # v[indices] = scalar
+            return '(set_many %s l_%s %s)' % (fld_txt, sl.id, v)
         if ft in ('vec', 'zvec') and not isinstance(sl, (ast.Tuple, ast.Slice)):
             i, _ = self.e(sl, want='Z')
             v, _ = self.coerce(v, t, 'T' if ft == 'vec' else 'Z', node)
